@@ -145,7 +145,7 @@ def run_one(tpl: Templates, prop, tier, run_seed, cap_s, spec=None):
             except OSError:
                 pass
         kind, inside, where = _stack_in_dask_expr(logpath)
-        if kind == "cpu" and inside and prop != "C19":
+        if kind == "cpu" and not (inside and prop == "C19"):
             # only C19 states a termination bound; elsewhere an exhausted CPU budget is a performance matter
             # (e.g. nested sorts re-deriving their quantiles under a shrunk cache), reported as inconclusive
             res = {"verdict": "wall_timeout", "detail": "CPU budget exhausted in %s (inconclusive outside C19)" % where, "spec": spec}
